@@ -241,13 +241,13 @@ func (h *harness) crashcheck(k int) (event, error) {
 	cutIndex := strings.HasPrefix(cut, "index/") && strings.HasSuffix(strings.SplitN(cut, "@", 2)[0], ".idx")
 	for _, lo := range liveObs {
 		ro, ok := byID[lo.id]
-		if !ok || ro.cport != lo.cport {
+		if !ok || flowOfPort(ro.cport) != flowOfPort(lo.cport) {
 			if !cutIndex {
-				h.complain("C12", "stream %d (flow %d) of a completed import is not visible under its id after restart (cut %q)", lo.id, lo.cport-1000, cut)
+				h.complain("C12", "stream %d (flow %d) of a completed import is not visible under its id after restart (cut %q)", lo.id, flowOfPort(lo.cport), cut)
 			}
 			continue
 		}
-		fl := lo.cport - 1000
+		fl := flowOfPort(lo.cport)
 		okDone := tDone[fl] != nil && ro.cdata == tDone[fl].cdata && ro.sdata == tDone[fl].sdata
 		okBatch := tBatch[fl] != nil && ro.cdata == tBatch[fl].cdata && ro.sdata == tBatch[fl].sdata
 		if !okDone && !okBatch && !cutIndex {
